@@ -31,11 +31,48 @@ def equo(n, d):
     return q
 
 RANGES = {"i64": (-2**63, 2**63 - 1), "u64": (0, 2**64 - 1), "i32": (-2**31, 2**31 - 1), "u32": (0, 2**32 - 1),
-          "u16": (0, 2**16 - 1), "i16": (-2**15, 2**15 - 1), "d53": (-2**53, 2**53), "Z": None}
+          "u16": (0, 2**16 - 1), "i16": (-2**15, 2**15 - 1), "i8": (-128, 127), "u8": (0, 255), "d53": (-2**53, 2**53),
+          "f24": (-2**24, 2**24),
+          "dbl": (-(2**64 - 2**11), 2**64 - 2**11),        # integer-valued doubles l with |l| < 2^64
+          "dblx": (-(2**68 - 2**15), 2**68 - 2**15),       # K = 16 l for doubles l with 4 fractional bits, 1 <= |trunc l| < 2^64
+          "Z": None}
+
+def fix53(v):
+    """the nearest-toward-zero integer with at most 53 significant bits (what a double can carry exactly)"""
+    a = abs(v)
+    k = max(0, a.bit_length() - 53)
+    a = (a >> k) << k
+    return a if v >= 0 else -a
+
+def fix_type(v, t):
+    if t in ("dbl", "dblx"):
+        v = fix53(v)
+        if t == "dblx" and abs(v) < 16:
+            v = 16 + abs(v) if v >= 0 else -16 - abs(v)
+    return v
 
 def fits(v, t):
     lo, hi = RANGES[t]
+    if t in ("dbl", "dblx") and (fix53(v) != v or (t == "dblx" and abs(v) < 16)):
+        return False
     return lo <= v <= hi
+
+def wrap(v, t):
+    """C narrowing conversion to the signed type t"""
+    lo, hi = RANGES[t]
+    m = hi - lo + 1
+    return (v - lo) % m + lo
+
+ROUNDED = [0]
+def ret_value(v, ret):
+    """the documented remainder v as the return type hands it back: narrowing for the integer types,
+    (double)(int64_t) (nearest, ties to even) for operator%(double)"""
+    if ret == "dbl_i64":
+        w = wrap(v, "i64")
+        if int(float(w)) != w:
+            ROUNDED[0] += 1
+        return int(float(w))
+    return wrap(v, ret)
 
 SPEC = {
     "tq": lambda n, d: [tquo(n, d)], "tr": lambda n, d: [trem(n, d)], "tqr": lambda n, d: [tquo(n, d), trem(n, d)],
@@ -46,6 +83,7 @@ SPEC = {
     "abs_tr": lambda n, d: [abs(trem(n, d))], "abs_cr": lambda n, d: [abs(crem(n, d))],
     "tq_w": lambda n, d: [tquo(n, d), abs(trem(n, d))], "tr_w": lambda n, d: [trem(n, d), abs(trem(n, d))],
     "cr_w": lambda n, d: [crem(n, d), abs(crem(n, d))], "fr_w": lambda n, d: [frem(n, d), frem(n, d)],
+    "tr_x16": lambda n, d: [trem(n, (abs(d) // 16) * (1 if d > 0 else -1))],      # operator%(double l), l = d/16: by trunc(l)
     "isdiv": lambda n, d: [1 if (n == 0 if d == 0 else n % d == 0) else 0],     # b = 0 divides only 0
 }
 
@@ -91,7 +129,14 @@ form("op%=.I", "tr"); form("op%=.ul", "tr", "Z", "u64"); form("op%=.l", "tr", "Z
 form("op%=.i", "tr", "Z", "i32"); form("op%=.T", "tr"); form("op%=.Ts", "tr", "Z", "i16")
 form("op%.I", "tr"); form("op%.ul", "tr", "Z", "u64", "i64"); form("op%.l", "tr", "Z", "i64", "i64")
 form("op%.u", "tr", "Z", "u32", "i32"); form("op%.i", "tr", "Z", "i32", "i32"); form("op%.us", "tr", "Z", "u16", "i16")
-form("op%.Ts", "tr", "Z", "i16", "i16"); form("op%.d", "tr", "Z", "d53", "i64")
+form("op%.Ts", "tr", "Z", "i16", "i16"); form("op%.d", "tr", "Z", "dbl", "dbl_i64"); form("op%.dx", "tr_x16", "Z", "dblx", "dbl_i64")
+form("op%.Tf", "tr", "Z", "f24")
+# small integer types: promotions to int and template instantiations
+form("op/.s", "tq", "Z", "i16"); form("op/.us", "tq", "Z", "u16"); form("op/.c", "tq", "Z", "i8")
+form("op/=.Tus", "tq", "Z", "u16"); form("op/=.Tc", "tq", "Z", "i8"); form("op/=.Tuc", "tq", "Z", "u8"); form("op/=.Td", "tq", "Z", "d53")
+form("op%=.Tus", "tr", "Z", "u16"); form("op%=.Tc", "tr", "Z", "i8"); form("op%=.Tuc", "tr", "Z", "u8"); form("op%=.Td", "tr", "Z", "d53")
+form("mod.s", "emod", "Z", "i16"); form("mod.us", "emod", "Z", "u16"); form("mod.c", "emod", "Z", "i8")
+form("div.s", "tq", "Z", "i16"); form("div.c", "tq", "Z", "i8")
 form("w%I.i", "tr", "i32", "Z"); form("w%I.l", "tr", "i64", "Z"); form("w%I.u", "tr", "u32", "Z"); form("w%I.ul", "tr", "u64", "Z")
 form("dom.isDivisor", "isdiv")
 
@@ -130,7 +175,7 @@ def edges(t):
     lo, hi = RANGES[t]
     c = {lo, lo + 1, hi, hi - 1, 0, 1, 2, 3, -1, -2, -3, hi // 2, hi // 2 + 1, lo // 2, 2**31 - 1, 2**31, 2**32 - 1, 2**32, 2**63 - 1,
          2**63, -2**31, -2**31 - 1, -2**63, 2**15, 2**15 - 1, -2**15, 2**16 - 1, 10, 7}
-    return sorted(v for v in c if lo <= v <= hi)
+    return sorted({fix_type(v, t) for v in c if lo <= v <= hi and fits(fix_type(v, t), t)})
 
 def rand_val(rng, t):
     if t == "Z":
@@ -143,7 +188,7 @@ def rand_val(rng, t):
     v = rng.bits(rng.range(1, bits))
     if lo < 0 and rng.chance(1, 2):
         v = -v
-    return min(max(v, lo), hi)
+    return fix_type(min(max(v, lo), hi), t)
 
 def clampfit(v, t):
     return t == "Z" or fits(v, t)
@@ -164,6 +209,8 @@ def gen_pair(rng, kind, nt, dt, idx):
             n, cl = rng.choice([d, -d, 0]), "n in {d,-d,0}"
         elif c == 2:    # |d| = 1
             d = rng.choice([1, -1]) if (dt == "Z" or RANGES[dt][0] < 0) else 1
+            if dt == "dblx":
+                d = rng.choice([16, -16, 17, -31])      # |trunc(d/16)| = 1
             n, cl = rand_val(rng, nt), "|d|=1"
         elif c == 3:    # multiple of d, multi-limb
             n, cl = d * vf.structured_int(rng, 3), "n=k*d multi-limb"
@@ -190,6 +237,8 @@ def gen_pair(rng, kind, nt, dt, idx):
             n, cl = rand_val(rng, nt), "random"
         if kind == "exact" and n % d != 0:
             continue
+        if d == 0 or not clampfit(d, dt):
+            continue
         if not clampfit(n, nt):
             if nt != "Z":
                 n = rand_val(rng, nt)
@@ -199,7 +248,7 @@ def gen_pair(rng, kind, nt, dt, idx):
             else:
                 continue
         return n, d, cl
-    return (0 if kind == "exact" else 5), (1 if dt != "Z" and RANGES[dt][0] >= 0 else -1), "fallback"
+    return (0 if kind == "exact" else 5), (16 if dt == "dblx" else (1 if dt != "Z" and RANGES[dt][0] >= 0 else -1)), "fallback"
 
 
 # directed cases every run starts with (witnesses of the Coq `_refuted` theorems and the limits of the casts)
@@ -257,7 +306,7 @@ def main(tier, replay=None):
     ]
     chk.assumptions = ["model hand-written after the code, one definition per overload body; tie = correspondence on generated cases",
                        "d != 0 everywhere (division by zero is outside the documented contract)",
-                       "word-returning operator% overloads: the claim is made only when the mathematical remainder is representable in the return type"]
+                       "word-returning operator% overloads whose return type cannot hold the remainder (divisor > 2^63, 2^31, 2^15): expected value = the documented truncated remainder converted to the return type (C narrowing), theorem C02_percent_operators_narrow_return_wrap; operator%(double): (double)(int64_t) of it"]
     # 1. proofs
     res = vf.coq_check_props(AREA)
     chk.proof_result(res, AREA)
@@ -297,6 +346,15 @@ def main(tier, replay=None):
                             n, d = (sg * o, w) if dt != "Z" else (w, sg * o)
                             if d != 0 and clampfit(n, nt) and clampfit(d, dt) and (kind != "exact" or n % d == 0):
                                 cases.append((f, n, d, "word-limit grid (exhaustive)"))
+            # multi-limb divisors against dividends around 0, |d| and 2|d| (the "already reduced" / n = 0 / n = +-d shortcuts), swept completely
+            if dt == "Z":
+                for a in (2**64 + 1, 2**64, 2**127 - 1, 10**30, 2**63, 3):
+                    for o in (0, 1, 2, a // 2, a - 1, a, a + 1, 2 * a - 1, 2 * a + 1, 7 * a, 2**64 * a - 1):
+                        for sn in (1, -1):
+                            for sd in (1, -1):
+                                n, d = sn * o, sd * a
+                                if clampfit(n, nt) and (kind != "exact" or n % d == 0):
+                                    cases.append((f, n, d, "multi-limb divisor grid (exhaustive)"))
             # a small box swept completely for every form (independent of the seed): n in [-N, N], d in [-D, D] \ {0}
             if not f.startswith("gmp.") or tier != "quick":
                 for n in range(-N, N + 1):
@@ -347,9 +405,11 @@ def main(tier, replay=None):
             kind, nt, dt, ret = F[f]
             exp = SPEC[kind](n, d)
             specified = True
-            if ret is not None and not fits(exp[0], ret):
-                specified = False          # the mathematical remainder is not representable in the return type
-                nunspec += 1
+            if ret is not None:            # word / double returning `%`: the documented remainder as the return type hands it back
+                conv = ret_value(exp[0], ret)
+                if conv != exp[0]:
+                    nunspec += 1
+                exp = [conv]
             if iout[i] == "NOT-RUN":
                 continue
             got = norm(iout[i])
@@ -360,7 +420,7 @@ def main(tier, replay=None):
             dist_sign[sg] = dist_sign.get(sg, 0) + 1
             chk.count((f, n, d), nontrivial=(n != 0 and abs(d) > 1 and n % d != 0) or (kind in ("exact",) and abs(d) != 1 and n != 0))
             if (c0 + i) % 1499 == 0 or (cl == "directed" and i % 7 == 0):
-                chk.sample({"form": f, "n": str(n), "d": str(d), "class": cl, "impl": iout[i], "spec": exps if specified else "unspecified (not representable)"}, limit=16)
+                chk.sample({"form": f, "n": str(n), "d": str(d), "class": cl, "impl": iout[i], "spec": exps}, limit=16)
             site, klass = site_of(f, n, d)
             if specified and got != exps:
                 chk.fail_input(site, klass, {"form": f, "n": str(n), "d": str(d)}, exps, iout[i],
@@ -380,8 +440,9 @@ def main(tier, replay=None):
                        "non-trivial = n != 0, |d| != 1 and d does not divide n (for divexact: |d| != 1, n != 0); distinct = (form, n, d)")
     chk.cov["traces_validated_against_impl"] = ncorr
     chk.cov["call_forms"] = len(F)
+    chk.cov["double_results_that_needed_rounding"] = ROUNDED[0]
     chk.cov["distribution_by_form"] = dist_form
     chk.cov["distribution_by_class"] = dist_class
     chk.cov["distribution_by_sign"] = dist_sign
-    chk.cov["unspecified_result_not_representable"] = nunspec
+    chk.cov["remainder_not_representable_in_return_type_checked_as_converted"] = nunspec
     return chk.finish()
